@@ -83,7 +83,21 @@ def gen_c01_random(rnd, tier):
             ls += [[2 * k, -1], [2 * k, 0], [2 * k, 1]]
         fs = [rnd.randint(-1, tot + 1) for _ in range(20)] + [0, tot]
         out.append({'m': 'curve', 'op': 'stations', 'dim': dim, 'tolU': 0, 'fc': fc, 'sc': rnd.choice((0, -10, 4, -3, 7, -20, 12)),
-                    'pts': pts, 'ls': ls, 'fs': fs})
+                    'pts': pts, 'ls': ls, 'fs': fs, 'nz': rnd.choice((0, 0, 1))})        # nz: zero lengths handed over as -0.0
+    # curves that are closed only within their tolerance (one lattice unit): rectangles whose last vertex stops one unit short of
+    # the first one - the closing vertex is a vertex of its own and the seam has two distinct stored end points
+    for _ in range(8 if tier == 'quick' else 80):
+        w, h = rnd.randint(2, 9), rnd.randint(3, 9)
+        pts = [[0, 0, 0], [w, 0, 0], [w, h, 0], [0, h, 0], [0, 1, 0]]
+        if rnd.random() < 0.5:
+            pts = [[p[1], p[0], 0] for p in pts]
+        c = cum(pts)
+        tot = 2 * c[-1]
+        ls = [[rnd.randint(-1, tot + 1), 0] for _ in range(10)] + [[-1, 0], [0, 0], [tot, 0], [tot + 1, 0]]
+        for k in c:
+            ls += [[2 * k, -1], [2 * k, 0], [2 * k, 1]]
+        out.append({'m': 'curve', 'op': 'stations', 'dim': 2, 'tolU': 1, 'fc': False, 'sc': rnd.choice((0, -3, 4)),
+                    'pts': pts, 'ls': ls, 'fs': [0, tot, tot // 2]})
     return out
 
 
